@@ -609,7 +609,10 @@ int c12_batch(const Args &a) {
                                 enumerated.push_back(es);
                             }
         }
-        if (g.adjacent || file_plan) {
+        bool shared_heap_plan = false; // some call touches a library heap block that outlives calls
+        for (auto &tr : solo.res)
+            for (auto &rr : tr) shared_heap_plan |= rr.n_shared_heap > 0;
+        if (g.adjacent || file_plan || shared_heap_plan) {
             // pairs: A stopped at one of its conflict points, B run up to one of its own, A run to its end, then B
             // (neither call completes inside the other: what a call does to a descriptor or a shared word it no
             // longer owns hits the other call while that one is still holding it)
@@ -629,6 +632,32 @@ int c12_batch(const Args &a) {
                                             enumerated.push_back(es);
                                             pairs++;
                                         }
+        }
+        if (shared_heap_plan && plan.tasks.size() >= 3) {
+            // three calls nested: A stopped at one of its conflict points, B run up to one of its own, C up to one of its
+            // own, then B to its end, A to its end, C to its end (what a lock-free structure without a version tag needs
+            // to go wrong); sampled, 192 at most
+            struct CP { int t, o; uint32_t e; };
+            std::vector<CP> cps;
+            for (size_t t = 0; t < plan.tasks.size(); t++)
+                for (size_t o = 0; o < plan.tasks[t].ops.size(); o++)
+                    if (solo.res[t][o].n_shared_heap)
+                        for (int e = 0; e < solo.res[t][o].n_edge; e++) cps.push_back({(int)t, (int)o, solo.res[t][o].edge_ev[e]});
+            Rng tr3(mix64(rs, 77));
+            for (int n = 0; n < 192 && cps.size() >= 3; n++) {
+                CP a = cps[tr3.below((uint32_t)cps.size())], b = cps[tr3.below((uint32_t)cps.size())], c = cps[tr3.below((uint32_t)cps.size())];
+                if (a.t == b.t || a.t == c.t || b.t == c.t) continue;
+                // a conflict point is the event BEFORE the access executes; the window of a read-then-compare-and-swap
+                // opens after the read: stop the first call one or two events later half of the time
+                if (tr3.chance(1, 2)) a.e += 1 + tr3.below(2);
+                Schedule es;
+                es.start = a.t;
+                es.sw.push_back({a.t, a.o, a.e, b.t});
+                es.sw.push_back({b.t, b.o, b.e, c.t});
+                es.sw.push_back({c.t, c.o, c.e, b.t});
+                // when b ends the forced switch goes to the lowest runnable task: make that a, then c
+                enumerated.push_back(es);
+            }
         }
         st.enumerated_conflict_schedules += enumerated.size();
         for (int k = 0; k < a.schedules + (int)enumerated.size(); k++) {
